@@ -25,7 +25,7 @@ ASSUMPTIONS = ["documented lookup criteria (case-insensitive): 'SER='+name in th
                "accepted; agreement between the layers is demanded for lists without SNR= tags"]
 
 VIDPID = "USB VID:PID=04D8:FD92"
-NAMES = ["Ada", "AxiDraw 7", "AxiDraw_7", "north-east", "A", "Ad", "ADA", "Plotter42", "x" * 16, "Bob", "bob2", "COM", "dev"]
+NAMES = ["EiBotBoard 2", "My EiBotBoard 3", "EiBotBoard", "SER=7", "LOCATION", "USB VID", "(COM3)", "Ada", "AxiDraw 7", "AxiDraw_7", "north-east", "A", "Ad", "ADA", "Plotter42", "x" * 16, "Bob", "bob2", "COM", "dev"]
 
 
 def classify(rec):
